@@ -139,7 +139,7 @@ func seedNodes(base int) []node.ReplicaInfo {
 
 // newReplica creates the server and the namespace node and starts both. dir is the replica's data
 // directory (kept across restarts).
-func newReplica(id int, dir string, base int, eng string) (*replica, error) {
+func newReplica(id int, dir string, base int, eng string, snapCount int) (*replica, error) {
 	os.MkdirAll(dir, 0700)
 	ioutil.WriteFile(path.Join(dir, "myid"), []byte(strconv.Itoa(id+1)), common.FILE_PERM)
 	redisP, httpP, raftP, metricP := portsOf(base, id)
@@ -170,6 +170,12 @@ func newReplica(id int, dir string, base int, eng string) (*replica, error) {
 	conf.Replicator = nReplica
 	conf.RaftGroupConf.GroupID = 1000
 	conf.RaftGroupConf.SeedNodes = seedNodes(base)
+	if snapCount > 0 {
+		// frequent raft snapshots (checkpoints of the store) while writes are applied; the log is kept long enough
+		// for a restarted replica to catch up from the log (no snapshot transfer between replicas)
+		conf.SnapCount = snapCount
+		conf.SnapCatchup = 100000
+	}
 	r := &replica{id: id, dir: dir, base: base, engine: eng, srv: kv, conf: conf, filter: filter}
 	if _, err := kv.InitKVNamespace(uint64(id+1), conf, false); err != nil {
 		return nil, err
@@ -354,11 +360,11 @@ type childRsp struct {
 }
 
 // runChild: one replica process; commands arrive on fd 3, answers leave on fd 4 (one JSON per line).
-func runChild(id int, dir string, base int, eng string) {
+func runChild(id int, dir string, base int, eng string, snapCount int) {
 	setupLogging(path.Join(dir, fmt.Sprintf("server-%d.log", time.Now().UnixNano())), common.LOG_INFO)
 	in := bufio.NewReaderSize(os.NewFile(3, "cmd"), 1<<16)
 	outF := os.NewFile(4, "rsp")
-	r, err := newReplica(id, dir, base, eng)
+	r, err := newReplica(id, dir, base, eng, snapCount)
 	send := func(rsp childRsp) {
 		b, _ := json.Marshal(rsp)
 		outF.Write(append(b, '\n'))
@@ -425,17 +431,18 @@ func runChild(id int, dir string, base int, eng string) {
 // ---------------------------------------------------------------- parent side of a child replica
 
 type childRep struct {
-	id     int
-	dir    string
-	base   int
-	engine string
-	mu     sync.Mutex
-	cmd    *exec.Cmd
-	w      *os.File
-	r      *bufio.Reader
-	rf     *os.File
-	alive  bool
-	paused bool
+	id        int
+	dir       string
+	base      int
+	engine    string
+	mu        sync.Mutex
+	cmd       *exec.Cmd
+	w         *os.File
+	r         *bufio.Reader
+	rf        *os.File
+	alive     bool
+	paused    bool
+	snapCount int
 }
 
 func (c *childRep) spawn() error {
@@ -453,7 +460,8 @@ func (c *childRep) spawn() error {
 	if err != nil {
 		return err
 	}
-	cmd := exec.Command(self, "-zrnode", "-id", strconv.Itoa(c.id), "-dir", c.dir, "-port", strconv.Itoa(c.base), "-engine", c.engine)
+	cmd := exec.Command(self, "-zrnode", "-id", strconv.Itoa(c.id), "-dir", c.dir, "-port", strconv.Itoa(c.base), "-engine", c.engine,
+		"-snapcount", strconv.Itoa(c.snapCount))
 	lf, _ := os.OpenFile(path.Join(c.dir, "stdout.log"), os.O_CREATE|os.O_APPEND|os.O_WRONLY, 0600)
 	cmd.Stdout, cmd.Stderr = lf, lf
 	cmd.ExtraFiles = []*os.File{cr, cw}
